@@ -76,6 +76,10 @@ func Run(c *hx.Ctx) {
 	e := &engine{c: c, fsck: c.Args["mode"] == "fsck"}
 	e.probeDefects()
 	if os.Getenv("VERIF_EXTTREE_DEV") != "" {
+		if os.Getenv("VERIF_EXTTREE_DEV") == "shrink" {
+			e.dirShrinks()
+			return
+		}
 		exttreeCases(c, c.Rng.Fork())
 		e.deepTrees()
 		return
@@ -86,6 +90,8 @@ func Run(c *hx.Ctx) {
 		allocCases(c)
 	}
 	e.deepTrees()
+	e.dirShrinks()
+	e.dirRelocs()
 	e.histories()
 }
 
